@@ -453,6 +453,18 @@ pub fn record_eq_pair(c1j: &Value, c2j: &Value, how: &str, tr: &mut Tr) {
     eq_answers(&c1, &c2, tr);
 }
 
+/// C12, circuit-derived diagrams that are NOT square (seed C12_e): circuits with ancilla initialisation / post-selection denote
+/// maps n -> m with m != n. Header `pairn`; the arities are those of the denoted map, not the qubit count. The rewriting-based
+/// checker presupposes unitaries, so for these pairs only its "not equal" answers are judged (Trace_Eq: DefNotEqual); the
+/// tensor-based checkers and the arity tests are judged in full.
+pub fn record_eq_pair_n(c1j: &Value, c2j: &Value, how: &str, tr: &mut Tr) {
+    let c1 = circ_from_json(c1j);
+    let c2 = circ_from_json(c2j);
+    tr.group();
+    tr.emit(json!({"k": "pairn", "c1": c1j, "c2": c2j, "how": how}));
+    eq_answers(&c1, &c2, tr);
+}
+
 /// C12, global phases that are NOT multiples of pi/4 (the scalar of the residue is then held as floats): the second circuit is
 /// the first followed by  x q; rz(n/d) q; x q; rz(n/d) q  =  e^{i pi n/d} * identity, so by construction the pair is equal up
 /// to a global phase and NOT equal exactly (n/d is not an even integer); both argument orders. Header `pairp`.
